@@ -18,10 +18,11 @@ func init() {
 			"plus prefix bytes and their successors, aimed at stored keys, their neighbours and the boundaries of nested namespaces. The program is executed on one MemDB and one GoLevelDB (scratch directory), each shared by " +
 			"its root view and all its prefixed views, in lock-step with a plain sorted map of root-level keys; every result is compared with the model and after every step the complete contents of both " +
 			"underlying stores are compared with the model (so a prefixed operation that touches a parent key outside its prefix shows). Op-kind weights are re-drawn per run (swarm). " +
+			"Concurrent mode (run%5==2): one writer task writes 2-12 batches of 2-6 operations to a MemDB directly or through 1-2 PrefixDB layers while 1-3 reader tasks take snapshots (complete forward/reverse iterations) and point reads; the scheduler may preempt at operation boundaries and between two operations of memDBBatch.Write wherever nobody holds the MemDB lock; every snapshot must equal the contents after a whole number of batches between those complete at its start and those started at its end, every point read the value of one of those states; keys outside the prefix stay untouched. " +
 			"distinct = distinct plan digest; non-trivial = at least one iterator comparison on a view holding >= 2 keys and at least one successful write through a prefixed view",
 		Assumptions: []string{
 			"the specification is a plain sorted map of root-level keys; a view with prefix P shows the keys P+k (k non-empty) as k",
-			"sequential programs and clean close/reopen only: batch atomicity under concurrent readers or power loss is NOT decided (MemDB holds one lock across the replay of a batch; narrowing it is invisible here)",
+			"batch atomicity under concurrent readers is decided for MemDB and PrefixDB over MemDB (concurrent mode, a fifth of the runs: seeded schedules, yield point between the operations of a batch write, lock-probe rule); GoLevelDB's batch write is third-party code without a seam and is trusted; power loss is not simulated for the real backends (clean close/reopen only)",
 			"no write is issued while an iterator is open (documented CONTRACT of the interface; MemDB would deadlock), and Key/Value/Next are never called on an invalid iterator",
 			"Has(empty key) answering false without an error is accepted (the statement only says an empty key is never stored); error messages are not compared",
 			"a stored empty value may read back as nil or empty; only presence (Has) is decided for it",
@@ -29,7 +30,7 @@ func init() {
 			"an empty prefix (NewPrefixDB(db, nil)) is outside the quantifier (cpIncr documents len(prefix) > 0)",
 			"GoLevelDB runs on real files in a scratch directory with the default options of NewGoLevelDB",
 		},
-		Components: map[string]string{"MemDB, GoLevelDB, PrefixDB (iterators, batches)": "real", "goleveldb library, file system": "real (scratch directory)", "oracle": "sorted-map model (drvdb/model.go)"},
+		Components: map[string]string{"MemDB, GoLevelDB, PrefixDB (iterators, batches)": "real", "goleveldb library, file system": "real (scratch directory)", "oracle": "sorted-map model (drvdb/model.go)", "goroutine scheduling (concurrent mode)": "writer and readers are real goroutines whose order the seeded scheduler decides (sim/sched.go); MemDB's iterator feeder goroutine runs free inside one indivisible harness step"},
 		QuickRuns:  c18QuickRuns,
 		ThoroughS:  480,
 		Gen: func(seed uint64, run int, tier string) *drv.Plan {
